@@ -897,6 +897,25 @@ class Interp:
                     return len(recv.encode('utf-8')) if isinstance(recv, str) else len(recv)
                 if name == 'is_empty' and not args:
                     return len(recv) == 0
+                if isinstance(recv, tuple) and recv and all(isinstance(x, tuple) and len(x) == 2 for x in recv) and len(args) == 1 and \
+                        not (isinstance(args[0], int) and not isinstance(args[0], bool)) and name in ('get', 'get_mut', 'get_full', 'get_full_mut2', 'get_key_value', 'contains_key', 'get_index_of'):
+                    # an ordered map modelled as a tuple of (key, value) pairs: lookup by key (a Key struct matches by its text)
+                    def same(k_, q):
+                        kt = k_[2].get('key') if isinstance(k_, tuple) and len(k_) == 3 and k_[0] == 'struct' and isinstance(k_[2], dict) else k_
+                        return kt == q or k_ == q
+                    hit = next((i for i, (k_, _) in enumerate(recv) if same(k_, args[0])), None)
+                    if name == 'contains_key':
+                        return hit is not None
+                    if name == 'get_index_of':
+                        return opt(hit)
+                    if hit is None:
+                        return ('ctor', NONE)
+                    k_, v_ = recv[hit]
+                    if name in ('get', 'get_mut'):
+                        return ('ctor', SOME, (v_,))
+                    if name == 'get_key_value':
+                        return ('ctor', SOME, ((k_, v_),))
+                    return ('ctor', SOME, ((hit, k_, v_),))
                 if name == 'get' and len(args) == 1 and isinstance(args[0], int):
                     return ('ctor', SOME, (recv[args[0]],)) if 0 <= args[0] < len(recv) else ('ctor', NONE)
                 if name in ('split_at', 'split_at_mut') and len(args) == 1 and isinstance(args[0], int) and not isinstance(args[0], bool):
